@@ -803,3 +803,173 @@ def run_blockmove(prop="C04", tier="quick"):
     res["notes"].append("fixtures: 1 positive fired, 1 negative silent")
     res["exhaustive"] = True
     return res
+
+
+def run_bufgrow(prop="C04", tier="quick"):
+    """R-BUFGROW: a byte buffer that is grown on demand is only appended to where the path has established room.  For every local buffer p
+    obtained from the allocate / reallocate function with a size variable A, and every fill index i that the function compares with A
+    to decide about growing: a store p[i] or p[i++] needs the must-fact i < A, which holds after the non-growing edge of `i >= A` (or the
+    true edge of `i < A`), or after the growing edge once A has been reassigned, and is lost when i or A changes.  Stores into the buffer
+    with any other index are counted undecided.  (mpz_inp_str, mpf_inp_str, the scanf field buffer.)"""
+    res = dict(findings=[], stats=collections.Counter(), samples=[], notes=[])
+    ex = sa.export(sa.cfg_builtfx())
+    sa.check_errors(ex)
+    fx = collections.Counter()
+
+    def strip(e):
+        while isinstance(e, dict) and e.get("k") in ("cast", "paren"):
+            e = e["e"]
+        return e
+
+    def var(e):
+        e = strip(e)
+        return e["id"] if isinstance(e, dict) and e.get("k") == "var" else None
+    for path, fn in ex.functions():
+        if sa.is_foreign_fixture(path, FIXTURE):
+            continue
+        # buffers: p = allocate (A) / reallocate (p, old, A)
+        bufs = {}                       # p id -> set of size var ids
+        for b in fn["blocks"]:
+            for el in b["elems"]:
+                def f(n):
+                    if n.get("k") == "binop" and n["op"] == "=" and var(n["l"]) is not None:
+                        r = strip(n["r"])
+                        if isinstance(r, dict) and r.get("k") == "call" and r.get("callee") is None and akind(r) in ("alloc", "realloc"):
+                            sz = r["args"][0] if akind(r) == "alloc" else (r["args"][2] if len(r["args"]) > 2 else None)
+                            ids = []
+                            sa.walk(sz or {}, lambda m: ids.append(m["id"]) if m.get("k") == "var" and "*" not in m.get("ct", "") else None)
+                            if len(ids) == 1:
+                                bufs.setdefault(var(n["l"]), set()).add(ids[0])
+                sa.walk(el["e"], f)
+        if not bufs:
+            continue
+        blocks = sa.blocks_by_id(fn)
+        # growth checks  i >= A  etc.
+        triples = set()
+        for b in fn["blocks"]:
+            t = b.get("term")
+            if t and t.get("cond") and len(b["succs"]) == 2:
+                c = strip(sa.strip_expect(sa.effective_cond(t)))
+                if isinstance(c, dict) and c.get("k") == "binop" and c["op"] in (">=", "<", ">", "<="):
+                    l, r = var(c["l"]), var(c["r"])
+                    for p, As in bufs.items():
+                        for A in As:
+                            if l is not None and r == A and l != A:
+                                triples.add((p, l, A))
+                            if r is not None and l == A and r != A:
+                                triples.add((p, r, A))
+        for (p, i, A) in sorted(triples):
+            def room_edge(cond, truth):
+                """True: i < A holds on this edge; 'grow': the growing edge; None: nothing"""
+                c = sa.strip_expect(cond)
+                neg = False
+                while isinstance(c, dict) and c.get("k") == "unop" and c["op"] == "!":
+                    c = sa.strip_expect(c["e"])
+                    neg = not neg
+                c = strip(c)
+                if not (isinstance(c, dict) and c.get("k") == "binop" and c["op"] in (">=", "<", ">", "<=")):
+                    return None
+                l, r, op = var(c["l"]), var(c["r"]), c["op"]
+                if l == A and r == i:
+                    l, r, op = r, l, {">=": "<=", "<=": ">=", "<": ">", ">": "<"}[op]
+                if not (l == i and r == A):
+                    return None
+                t = truth != neg
+                if op == "<":
+                    return True if t else "grow"
+                if op == ">=":
+                    return "grow" if t else True
+                return None
+            IN = {fn["entry"]: (False, False)}           # (room, growing)
+            work = {fn["entry"]}
+            reported = set()
+            while work:
+                bid = max(work)
+                work.discard(bid)
+                b = blocks[bid]
+                room, growing = IN[bid]
+                for el in b["elems"]:
+                    e = el["e"]
+                    # stores into the buffer
+                    def g(n, el=el):
+                        nonlocal room
+                        if n.get("k") == "binop" and n["op"] == "=" and strip(n["l"]).get("k") == "index" and var(strip(n["l"])["base"]) == p:
+                            ix = strip(strip(n["l"])["idx"])
+                            appended = var(ix) == i or (isinstance(ix, dict) and ix.get("k") == "unop" and ix["op"] in ("post++",) and var(ix["e"]) == i)
+                            key_ = (el["line"], i)
+                            if not appended:
+                                if key_ not in reported:
+                                    res["stats"]["bufgrow_other_index"] += 1 if path != FIXTURE else 0
+                                    reported.add(key_)
+                                return
+                            if key_ not in reported and path != FIXTURE:
+                                res["stats"]["bufgrow_appends"] += 1
+                            if not room and key_ + ("v",) not in reported:
+                                reported.add(key_ + ("v",))
+                                f_ = Finding(prop, "R-BUFGROW", path, el["line"], fn["name"], "append-without-room:%d" % el["line"],
+                                             "the store into the growable buffer at line %d is reachable on a path that has not established that the "
+                                             "fill index is below the allocated size since either last changed: when the buffer is exactly full the "
+                                             "byte lands one past the block" % el["line"])
+                                if path == FIXTURE:
+                                    fx[fn["name"]] += 1
+                                else:
+                                    res["findings"].append(f_)
+                            reported.add(key_)
+                    sa.walk(e, g)
+                    # kills / growth completion
+                    def k(n):
+                        nonlocal room, growing
+                        tgt = None
+                        if n.get("k") == "binop" and n["op"].endswith("=") and n["op"] not in ("==", "!=", "<=", ">="):
+                            tgt = var(n["l"])
+                        elif n.get("k") == "unop" and n["op"] in ("post++", "pre++", "post--", "pre--"):
+                            tgt = var(n["e"])
+                        elif n.get("k") == "decl":
+                            for d_ in n["decls"]:
+                                if d_["var"]["id"] in (i, A) and "init" in d_:
+                                    room = False
+                            return
+                        if tgt == i:
+                            room = False
+                        elif tgt == A:
+                            if growing:
+                                room, growing = True, False
+                            else:
+                                room = False
+                    sa.walk(e, k)
+                if b.get("noreturn"):
+                    continue
+                t = b.get("term")
+                cond = sa.effective_cond(t) if t and t.get("cond") and len(b["succs"]) == 2 else None
+                for si, s_ in enumerate(b["succs"]):
+                    if not isinstance(s_, int) or s_ == fn["exit"]:
+                        continue
+                    o = (room, growing)
+                    if cond is not None:
+                        re_ = room_edge(cond, si == 0)
+                        if re_ is True:
+                            o = (True, False)
+                        elif re_ == "grow":
+                            o = (False, True)
+                    cur = IN.get(s_)
+                    new = o if cur is None else (cur[0] and o[0], cur[1] and o[1])
+                    if cur is None or new != cur:
+                        IN[s_] = new
+                        work.add(s_)
+            if path != FIXTURE:
+                res["samples"].append(dict(rule="R-BUFGROW", function=fn["name"], file=relpath(path)))
+    if not fx.get("fix_bufgrow_bad") or fx.get("fix_bufgrow_good"):
+        raise AnalysisBroken("R-BUFGROW fixtures: %r" % dict(fx))
+    if res["stats"]["bufgrow_appends"] < 3:
+        raise AnalysisBroken("R-BUFGROW: only %d append stores into growable buffers found (floor 3)" % res["stats"]["bufgrow_appends"])
+    res["stats"] = dict(res["stats"])
+    res["obligations"] = res["stats"]["bufgrow_appends"] + res["stats"].get("bufgrow_other_index", 0)
+    res["undecided"] = res["stats"].get("bufgrow_other_index", 0)
+    res["notes"].append("fixtures: 1 positive fired, 1 negative silent")
+    res["exhaustive"] = True
+    return res
+
+
+def run_bufgrow_io(prop="C17", tier="quick"):
+    """C17 view of R-BUFGROW: the input functions' token buffers"""
+    return run_bufgrow(prop=prop, tier=tier)
